@@ -2,7 +2,7 @@
    The theorems are about data_connection::recv as modelled in DataConn.v (loop over the segments the socket
    delivers, one sink write per segment, one flush, end-of-file vs error); the kernel, TCP and the TLS record
    layer are not modelled: that bytes arrive in order and once is assumed and exercised by the correspondence. *)
-From LibFtp Require Import Bytes Ascii DataConn DataConn_Proofs Endpoint Client Client_Proofs Login_Proofs Transfer_Proofs.
+From LibFtp Require Import Bytes Endpoint Ascii DataConn DataConn_Proofs Client Client_Proofs Login_Proofs Transfer_Proofs.
 Local Open Scope N_scope.
 
 (* for every payload and every way it is cut into segments (of any sizes), with or without a callback: a download
@@ -33,14 +33,14 @@ Print Assumptions C03_error_no_flush.
    segmentation, returns the three replies and leaves no data socket *)
 Theorem C03_download_end_to_end : forall w path r1 r2 rest x1 x2 x3 ip port,
   insync w (r1 :: r2 :: rest) -> w_data w = None ->
-  c_mode (w_cfg w) = Passive -> c_tls (w_cfg w) = false -> c_type (w_cfg w) = TBinary ->
+  c_mode (w_cfg w) = Passive -> c_tls (w_cfg w) = false ->
   has_crlf path = false ->
   simple_reaction r1 x1 -> is_negative x1 = false -> passive_target (w_cfg w) x1 ip port ->
   dp_reachable (r_data r1) = true ->
   accepts_transfer r2 x2 x3 -> dp_end (r_data r2) = DEof ->
   exists w', step w (ADownload path None None) = (OReturn (RvReplies [x1; x2; x3]), w') /\
     insync w' rest /\ w_data w' = None /\ w_cfg w' = w_cfg w /\
-    sink_bytes (io_events (skipn (length (w_trace w)) (w_trace w'))) = concat (dp_segs (r_data r2)) /\
+    sink_bytes (io_events (skipn (length (w_trace w)) (w_trace w'))) = delivered (c_type (w_cfg w)) (concat (dp_segs (r_data r2))) /\
     wire_events (skipn (length (w_trace w)) (w_trace w')) =
       [WLine (setup_line (w_cfg w)); WReply x1; WLine (RETR_ ++ SP :: path); WReply x2; WReply x3] /\
     data_events (skipn (length (w_trace w)) (w_trace w')) =
